@@ -8,6 +8,11 @@
  *       hashes as required (0 in the inode body, entry hash in a block);
  *   (b) the real parser read_xattrs_from_buffer() returns the same list.
  *
+ * EAMASK bit i: attribute i keeps its value in an EA inode: the entry carries the
+ * inode number, value offset 0, the value length, no value bytes, and in BOTH
+ * layouts the entry hash built from the name and the hash stored in that inode
+ * (the kernel refuses such an entry with a wrong or zero hash).
+ *
  * LAYOUT 0 = in-inode region (value offsets relative to the first entry, no
  * hashes), LAYOUT 1 = block (offsets relative to the block, 32-byte header,
  * hashes).  Precondition = what ext2fs_xattr_set's accounting guarantees its
